@@ -45,27 +45,54 @@ def gen_library(rng, idx):
             sigs.append((p, keys))
         return [s[0] for s in sigs]
 
+    def outs_for(p):
+        """positions (in the list of Python-visible parameters) before which an `int * +intent(out)` parameter is inserted:
+        never after a defaulted parameter (C++ requires defaults to be trailing)"""
+        if rng.random() > 0.35:
+            return []
+        req = next((i for i, (_, d) in enumerate(p) if d), len(p))
+        return sorted(rng.randint(0, req) for _ in range(rng.choice([1, 1, 2])))
+
     funcs = []
     for i in range(rng.randint(2, 4)):
         rt = rng.choice(RET)
         for p in distinct_sigs(rng.choice([1, 1, 2, 3]), 3):
-            funcs.append(dict(name="fn%d" % i, params=p, ret=rt, method=False, ctor=False))
-    cls = [dict(name="Cls", params=[], ret=None, method=False, ctor=True)]
+            funcs.append(dict(name="fn%d" % i, params=p, ret=rt, method=False, ctor=False, outs=outs_for(p)))
+    cls = [dict(name="Cls", params=[], ret=None, method=False, ctor=True, outs=[])]
     for i in range(rng.randint(1, 3)):
         rt = rng.choice(RET)
         for p in distinct_sigs(rng.choice([1, 1, 2]), 3):
-            cls.append(dict(name="meth%d" % i, params=p, ret=rt, method=True, ctor=False))
+            cls.append(dict(name="meth%d" % i, params=p, ret=rt, method=True, ctor=False, outs=outs_for(p)))
     return dict(funcs=funcs, cls=cls, idx=idx)
 
 
-def cxx_params(ps, with_defaults):
+def cxx_params(ps, with_defaults, outs=(), yaml=False):
+    """the C++ parameter list: Python-visible parameters a<i> and, before visible position j for each j in outs, an
+    output parameter o<k> (not supplied by the Python caller; its value comes back in the result)"""
     out = []
-    for i, (t, d) in enumerate(ps):
+    k = 0
+    for i in range(len(ps) + 1):
+        while k < len(outs) and outs[k] == i:
+            out.append("int *o%d%s" % (k, " +intent(out)" if yaml else ""))
+            k += 1
+        if i == len(ps):
+            break
+        t, d = ps[i]
         s = "%s a%d" % (TYPES[t][0], i)
         if d and with_defaults:
             s += " = " + DEFAULTS[t]
         out.append(s)
     return ", ".join(out)
+
+
+def set_outs(f):
+    return "".join(" *o%d = %d;" % (k, 100 + k) for k in range(len(f.get("outs", []))))
+
+
+def pyret(f):
+    """repr of what Python receives: the result followed by the output parameters (a tuple when more than one value)"""
+    vals = ([] if f["ret"] == "void" else [PYRET[f["ret"]]]) + [str(100 + k) for k in range(len(f.get("outs", [])))]
+    return "None" if not vals else vals[0] if len(vals) == 1 else "(" + ", ".join(vals) + ")"
 
 
 def log_stmt(tag, ps):
@@ -101,10 +128,10 @@ def write_library(lib, d):
         return "void" if f["ret"] == "void" else ("std::string" if f["ret"] == "string" else f["ret"])
     for k, f in enumerate(lib["funcs"]):
         f["tag"] = "%s#%d" % (f["name"], k)
-        hpp.append("%s %s(%s);" % (rtype(f), f["name"], cxx_params(f["params"], True)))
-        body = log_stmt(f["tag"], f["params"]) + ("" if f["ret"] == "void" else " return %s;" % RETVAL[f["ret"]])
-        cpp.append("%s %s(%s) { %s }" % (rtype(f), f["name"], cxx_params(f["params"], False), body))
-        ydecl.append({"decl": "%s %s(%s)" % (rtype(f), f["name"], cxx_params(f["params"], True))})
+        hpp.append("%s %s(%s);" % (rtype(f), f["name"], cxx_params(f["params"], True, f["outs"])))
+        body = log_stmt(f["tag"], f["params"]) + set_outs(f) + ("" if f["ret"] == "void" else " return %s;" % RETVAL[f["ret"]])
+        cpp.append("%s %s(%s) { %s }" % (rtype(f), f["name"], cxx_params(f["params"], False, f["outs"]), body))
+        ydecl.append({"decl": "%s %s(%s)" % (rtype(f), f["name"], cxx_params(f["params"], True, f["outs"], yaml=True))})
     hpp.append("class Cls { public:")
     cdecl = []
     for k, f in enumerate(lib["cls"]):
@@ -113,9 +140,9 @@ def write_library(lib, d):
             hpp.append("  Cls(%s) { %s }" % (cxx_params(f["params"], True), log_stmt(f["tag"], f["params"])))
             cdecl.append({"decl": "Cls(%s)" % cxx_params(f["params"], True)})
         else:
-            body = log_stmt(f["tag"], f["params"]) + ("" if f["ret"] == "void" else " return %s;" % RETVAL[f["ret"]])
-            hpp.append("  %s %s(%s) { %s }" % (rtype(f), f["name"], cxx_params(f["params"], True), body))
-            cdecl.append({"decl": "%s %s(%s)" % (rtype(f), f["name"], cxx_params(f["params"], True))})
+            body = log_stmt(f["tag"], f["params"]) + set_outs(f) + ("" if f["ret"] == "void" else " return %s;" % RETVAL[f["ret"]])
+            hpp.append("  %s %s(%s) { %s }" % (rtype(f), f["name"], cxx_params(f["params"], True, f["outs"]), body))
+            cdecl.append({"decl": "%s %s(%s)" % (rtype(f), f["name"], cxx_params(f["params"], True, f["outs"], yaml=True))})
     hpp.append("};")
     ydecl.append({"decl": "class Cls", "declarations": cdecl})
     open(os.path.join(d, "tlib.hpp"), "w").write("\n".join(hpp) + "\n")
@@ -253,7 +280,7 @@ def expected(m, group, pos, kw):
             uninit = True
     for (t, _) in f["params"][int(n):]:
         line += " " + DEFLOG[t]
-    return [line, "RET " + PYRET[f["ret"]]], (line if uninit else None)
+    return [line, "RET " + pyret(f)], (line if uninit else None)
 
 
 def oracle(group, pos, kw, kind, got):
@@ -276,8 +303,8 @@ def oracle(group, pos, kw, kind, got):
             skipped = any(v is None for v in vals[:max([i for i, v in enumerate(vals) if v is not None] + [-1]) + 1])
             return {"what": "the library did not receive the documented argument values: expected %r" % line, "class": "values",
                     "skip": skipped}
-        if got[-1] != "RET " + PYRET[f["ret"]]:
-            return {"what": "wrong result returned to Python: %s (expected %s)" % (got[-1], PYRET[f["ret"]]), "class": "result"}
+        if got[-1] != "RET " + pyret(f):
+            return {"what": "wrong result returned to Python: %s (expected %s)" % (got[-1], pyret(f)), "class": "result"}
         return None
     return None
 
@@ -315,7 +342,9 @@ def run(ctx):
                      "parameter prefix with shuffled keyword order, a keyword call skipping defaulted parameters, and malformed calls "
                      "(too many, unknown keyword, name and position, wrong type, missing required). non-trivial = distinct call executed")
     ctx.assume += ["CPython's PyArg_ParseTupleAndKeywords is abstracted (positional then keyword assignment, one unit per parameter); "
-                   "validated by execution", "in-arguments only (scalars and std::string); out arguments, arrays, structs, numpy not modelled"]
+                   "validated by execution", "Python-visible arguments are scalars and std::string; `int * +intent(out)` parameters are placed "
+                   "before the first defaulted parameter in a third of the signatures (invisible to the caller, returned in the result); "
+                   "arrays, structs, numpy not modelled"]
     ctx.hygiene()
     ctx.static_build()
     ctx.prove(os.path.join(vlib.COQ, "Properties", "C03.v"))
